@@ -6,6 +6,7 @@ import (
 	"encoding/hex"
 	"fmt"
 	"math/rand"
+	"net"
 	"os"
 	"time"
 
@@ -17,6 +18,7 @@ import (
 	"github.com/uber/kraken/lib/torrent/networkevent"
 	"github.com/uber/kraken/lib/torrent/scheduler"
 	"github.com/uber/kraken/lib/torrent/scheduler/announcequeue"
+	"github.com/uber/kraken/lib/torrent/scheduler/conn"
 	"github.com/uber/kraken/lib/torrent/storage"
 	"github.com/uber/kraken/lib/torrent/storage/agentstorage"
 	"github.com/uber/kraken/tracker/metainfoclient"
@@ -57,6 +59,7 @@ func system(c *eng.Ctx, t int, rng *rand.Rand, dir string) {
 	ta := agentstorage.NewTorrentArchive(tally.NoopScope, cads, tc)
 	const nt = 3
 	var torrents []storage.Torrent
+	var infos []*storage.TorrentInfo
 	names := map[core.InfoHash]string{}
 	for i := 0; i < nt; i++ {
 		blob := make([]byte, 8+i)
@@ -74,6 +77,11 @@ func system(c *eng.Ctx, t int, rng *rand.Rand, dir string) {
 		}
 		torrents = append(torrents, tor)
 		names[tor.InfoHash()] = fmt.Sprintf("h%d", i+1)
+		info, err := ta.Stat("ns", d)
+		if err != nil {
+			panic(err)
+		}
+		infos = append(infos, info)
 	}
 	c.W.Reset(t, map[string]any{"family": "system"})
 	rq := &recQ{q: announcequeue.New(), c: c, names: names}
@@ -88,7 +96,12 @@ func system(c *eng.Ctx, t int, rng *rand.Rand, dir string) {
 		panic(err)
 	}
 	defer vs.Close()
-	pend := map[int][]core.PeerID{}
+	hs := conn.HandshakerFixture(conn.Config{})
+	type slot struct {
+		p core.PeerID
+		c *conn.Conn
+	}
+	pend := map[int][]slot{}
 	steps := 15 + rng.Intn(25)
 	for s := 0; s < steps; s++ {
 		i := rng.Intn(nt)
@@ -96,7 +109,10 @@ func system(c *eng.Ctx, t int, rng *rand.Rand, dir string) {
 		switch k := rng.Intn(12); {
 		case k < 3:
 			if !vs.HasControl(h) {
-				vs.AddTorrent("ns", torrents[i])
+				// a removed (leeching) torrent was deleted from the archive: create it again, as a new download would
+				if tor, err := ta.CreateTorrent("ns", torrents[i].Digest()); err == nil {
+					vs.AddTorrent("ns", tor)
+				}
 			}
 		case k < 6:
 			vs.AnnounceTick()
@@ -108,17 +124,28 @@ func system(c *eng.Ctx, t int, rng *rand.Rand, dir string) {
 			if vs.HasControl(h) {
 				vs.RemoveTorrent(h)
 			}
-		case k < 11: // saturate: fill every connection slot of the torrent
+		case k < 11: // saturate: fill every connection slot of the torrent with an ACTIVE conn
 			for len(pend[i]) < cfg.ConnState.MaxOpenConnectionsPerTorrent {
 				p := core.PeerIDFixture()
 				if vs.AddPending(p, h) != nil {
 					break
 				}
-				pend[i] = append(pend[i], p)
+				near, far := net.Pipe()
+				defer near.Close()
+				defer far.Close()
+				cn, err := conn.VerifC16NewConn(hs, near, p, infos[i], false)
+				if err != nil {
+					panic(err)
+				}
+				if vs.MoveToActive(cn) != nil {
+					vs.DeletePending(p, h)
+					break
+				}
+				pend[i] = append(pend[i], slot{p, cn})
 			}
 		default:
-			for _, p := range pend[i] {
-				vs.DeletePending(p, h)
+			for _, sl := range pend[i] {
+				vs.DeleteActive(sl.c)
 			}
 			pend[i] = nil
 		}
